@@ -25,16 +25,18 @@ def make_sig(cls, prm):
     from amaranth import unsigned, signed
     from amaranth.lib import enum as aenum
     from amaranth_soc import csr, wishbone, event, gpio
+    def fresh(n):
+        return int(str(n))      # a separately computed int object (not the caller's / not interned)
     if cls == "csr.Signature":
-        return csr.Signature(addr_width=prm["aw"], data_width=prm["dw"])
+        return csr.Signature(addr_width=fresh(prm["aw"]), data_width=fresh(prm["dw"]))
     if cls == "csr.Element.Signature":
-        return csr.Element.Signature(prm["w"], prm["acc"])
+        return csr.Element.Signature(fresh(prm["w"]), prm["acc"])
     if cls == "csr.FieldPort.Signature":
         sh = prm["shape"]
         if sh[0] == "int":
-            shape = sh[1]
+            shape = fresh(sh[1])
         elif sh[0] == "u":
-            shape = unsigned(sh[1])
+            shape = unsigned(fresh(sh[1]))
         elif sh[0] == "s":
             shape = signed(sh[1])
         elif sh[0] == "range":
@@ -162,12 +164,16 @@ class PortsWorld(World):
     # ------------------------------------------------------------------------------------------
     def _params(self, rng, cls):
         if cls == "csr.Signature":
-            return {"aw": rng.range(1, 12), "dw": rng.range(1, 40)}
+            return {"aw": rng.range(1, 12) if not rng.chance(0.1) else rng.range(257, 400),
+                    "dw": rng.range(1, 40) if not rng.chance(0.1) else rng.range(257, 1100)}
         if cls == "csr.Element.Signature":
-            return {"w": rng.range(0, 40), "acc": rng.choice(["r", "w", "rw"])}
+            return {"w": rng.range(0, 40) if not rng.chance(0.2) else rng.range(257, 1100),
+                    "acc": rng.choice(["r", "w", "rw"])}
         if cls == "csr.FieldPort.Signature":
             k = rng.below(5)
-            sh = [["int", rng.range(0, 12)], ["u", rng.range(0, 12)], ["s", rng.range(1, 12)],
+            big = rng.range(257, 600) if rng.chance(0.15) else None
+            sh = [["int", big or rng.range(0, 12)], ["u", big or rng.range(0, 12)],
+                  ["s", big or rng.range(1, 12)],
                   ["range", rng.choice([1, 2, 3, 4, 5, 8, 9, 16, 17, 256])],
                   ["enum", rng.range(1, 7), rng.range(3, 6)]][k]
             return {"shape": sh, "acc": rng.choice(["r", "w", "rw", "nc"])}
@@ -342,8 +348,8 @@ class PortsWorld(World):
             for t in range(config["burst"]):
                 for i, ((n, sa), (_, sb)) in enumerate(zip(in_a, b.inputs)):
                     v = cval(config["stim"], i, t, len(sa))
-                    p.set(sa, v)
-                    p.set(sb, v)
+                    p.drive_input("C20", f"{a.cls_name}.{n}", sa, v)
+                    p.drive_input("C20", f"{a.cls_name}.{n}", sb, v)
                 row = []
                 for (n, sa), (_, sb) in zip(out_a, b.outputs):
                     ga, gb = p.get(sa), p.get(sb)
